@@ -33,6 +33,7 @@ func genCfg(r *hx.RNG, las uint32, prof string) SessCfg {
 	}
 	c.APR4, c.APS4, c.APR6, c.APS6 = r.Chance(30), r.Chance(30), r.Chance(30), r.Chance(30)
 	c.MP4 = r.Chance(40)
+	c.NX4 = c.V4 && r.Chance(30)
 	if r.Chance(50) {
 		c.Role = r.Intn(6)
 		c.Strict = r.Chance(40)
@@ -42,6 +43,8 @@ func genCfg(r *hx.RNG, las uint32, prof string) SessCfg {
 	c.RR = c.PAS == las && r.Chance(50)
 	if c.RR {
 		c.Cluster = uint32([]int{0, 5}[r.Intn(2)])
+	} else if r.Chance(30) {
+		c.Cluster = 5 // a cluster id configured on a session that is not a route reflector client contributes nothing
 	}
 	switch r.Intn(5) {
 	case 0:
@@ -218,8 +221,10 @@ func genMsg(r *hx.RNG, c SessCfg, prof string) Msg {
 			m = mutateOpen(r, c, m)
 		}
 		return m
-	case k < 62:
+	case k < 58:
 		return Msg{Kind: 'U', Ann: genIDs(r, 3), Wd: genIDs(r, 2)}
+	case k < 62:
+		return Msg{Kind: 'P', RID: r.Intn(5), ByASN: r.Bool(), Val: []uint32{c.LAS, 65001, 200000, 5, c.RID, 65099}[r.Intn(6)]}
 	case k < 72:
 		codes := [][2]int{{6, 0}, {6, 2}, {4, 0}, {2, 2}, {1, 1}, {1, 2}, {3, 1}, {2, 11}, {9, 0}, {6, 9}, {5, 0}, {2, 5}}
 		x := codes[r.Intn(len(codes))]
@@ -353,7 +358,11 @@ func GenCase(r *hx.RNG, prof string, tr *hx.Trace) Case {
 		ns = 2
 	}
 	for i := 0; i < ns; i++ {
-		c.Sess = append(c.Sess, genCfg(r, las, prof))
+		l := las
+		if i > 0 && r.Chance(30) {
+			l = lasPool[r.Intn(len(lasPool))] // sessions with different local ASNs in one VRF
+		}
+		c.Sess = append(c.Sess, genCfg(r, l, prof))
 	}
 	// the second session, if any, is established first and then mostly left alone
 	if ns == 2 {
